@@ -211,15 +211,35 @@ func (h *Heap) Set(s *State, name string, t Term) {
 
 // HavocAll forgets every heap component.
 func (h *Heap) HavocAll(s *State) {
+	var oldClosed Term
+	if sort, ok := h.sorts[chanClosedComp]; ok {
+		oldClosed = h.Get(s, chanClosedComp, sort)
+	}
 	h.epochN++
 	s.epoch = h.epochN
 	s.heap = map[string]Term{}
+	if oldClosed.S != "" {
+		h.closedMonotone(s, oldClosed)
+	}
+}
+
+// closedMonotone: whatever else happens, a closed channel stays closed.
+func (h *Heap) closedMonotone(s *State, old Term) {
+	nw := h.sc.FreshConst("ChanClosed@m", old.Sort)
+	h.sc.n++
+	c := fmt.Sprintf("ch?%d", h.sc.n)
+	h.sc.Assume(T(fmt.Sprintf("(forall ((%s Int)) (! (=> (select %s %s) (select %s %s)) :pattern ((select %s %s))))", c, old.S, c, nw.S, c, nw.S, c), SBool))
+	s.heap[chanClosedComp] = nw
 }
 
 // Havoc forgets one component.
 func (h *Heap) Havoc(s *State, name string) {
 	sort, ok := h.sorts[name]
 	if !ok {
+		return
+	}
+	if name == chanClosedComp {
+		h.closedMonotone(s, h.Get(s, name, sort))
 		return
 	}
 	t := h.sc.FreshConst(sanitize(name)+"@h", sort)
